@@ -112,7 +112,7 @@ structure UEdge where
   inBase : Int
   inRate : Int
   cap : Nat
-deriving Repr, BEq, Inhabited
+deriving Repr, BEq, DecidableEq, Inhabited
 
 structure Hop where
   chan : Nat
@@ -385,7 +385,7 @@ structure Entry where
   recv : Nat
   outFee : Nat
   cltv : Int
-deriving Repr, BEq, Inhabited
+deriving Repr, BEq, DecidableEq, Inhabited
 
 def Req.initEntry (r : Req) : Entry := ⟨r.amt, 0, i32 (r.height + r.finalDelta)⟩
 
